@@ -21,7 +21,7 @@
  *   - trypop: its successful compare-exchange moves head from the current head to its TRUE linked successor (never to a
  *     reclaimed/reused or unrelated node), it returns exactly the value pushed with that successor (FIFO position, exactly once),
  *     retires the old head exactly once; it returns NULL only if at some environment point during the call the queue was empty
- *     or the oldest push was still in flight (link missing);
+ *     or a push was still in flight (a link missing);
  *   - push: exactly one successful compare-exchange appends the new node to the current tail; the link is then written into
  *     that old tail (and nowhere else) before push returns;
  *   - at every environment point the whole structure is intact: links that exist are correct, missing links are NULL, the
@@ -95,6 +95,12 @@ static _Bool saw_empty_or_inflight;
 static int n_pop_lin, n_push_lin, n_free_calls, popped_old = -1;
 static void* lin_value;
 
+/* the property's wording: "empty at some instant during the call or a push was still in flight" (any push, not only the oldest) */
+static _Bool empty_or_inflight(void) {
+  if (len == 1) return 1;
+  for (int i = 0; i < NP + 1; i++) { if (i >= len - 1) break; if (pend[i]) return 1; }
+  return 0;
+}
 static _Bool covered(int n) { return H.slots[0] == &node(n)->hazard || H.slots[1] == &node(n)->hazard; }
 static void gc_nop(void* d, hazard_node_t* n) {}
 void hazard_pointer_scan(hazard_pointer_thread_record_t* hptr) {}   /* retire threshold is never reached in one operation */
@@ -121,7 +127,7 @@ static void check_structure(void) {
     if (st[i] == ST_INQ && i != q[0]) __CPROVER_assert(node(i)->value == gval[i], "C13 structure: stored values are unchanged");
     if (st[i] == ST_RETIRED && covered_at_retire[i] && !covered(i)) covered_at_retire[i] = 0;
   }
-  if (len == 1 || pend[0]) saw_empty_or_inflight = 1;
+  if (empty_or_inflight()) saw_empty_or_inflight = 1;
 }
 
 static int pick_node(int want) {
@@ -180,7 +186,7 @@ static void env_point(void) {
       env_budget--;
       if (k == 0) check_structure();   /* damage done by the operation since the last check is still there: the environment never repairs */
       env_action();
-      if (len == 1 || pend[0]) saw_empty_or_inflight = 1;
+      if (empty_or_inflight()) saw_empty_or_inflight = 1;
     } else break;
   }
 }
@@ -207,7 +213,7 @@ static int verif_cas(struct mpmc_fifo_node* volatile* o, struct mpmc_fifo_node**
     n_push_lin++;
   }
   *o = d;
-  if (len == 1 || pend[0]) saw_empty_or_inflight = 1;
+  if (empty_or_inflight()) saw_empty_or_inflight = 1;
   env_point();
   return 1;
 }
@@ -231,7 +237,7 @@ static void setup(void) {
   /* arbitrary reachable pre-state */
   env_budget = 0;
   for (int k = 0; k < PRE_ENV; k++) { if (nondet_bool()) { env_action(); check_structure(); } }
-  saw_empty_or_inflight = (len == 1 || pend[0]);
+  saw_empty_or_inflight = empty_or_inflight();
   env_budget = ENV_BUDGET;
   spur_budget = SPUR_BUDGET;
 }
@@ -246,7 +252,7 @@ void h_trypop(void) {
     __CPROVER_assert(n_free_calls == 1, "C13 pop: the unlinked old head is retired exactly once");
   } else {
     __CPROVER_assert(n_pop_lin == 0 && n_free_calls == 0, "C13 pop: reporting empty removes nothing");
-    __CPROVER_assert(saw_empty_or_inflight, "C13 pop: empty is reported only if the queue was empty, or its oldest push still in flight, at some instant during the call");
+    __CPROVER_assert(saw_empty_or_inflight, "C13 pop: empty is reported only if the queue was empty, or a push still in flight, at some instant during the call");
   }
 #ifdef WITNESS
   __CPROVER_assert(!(r && env_budget == 0), "witness: a successful pop after all environment actions is reachable");
